@@ -753,7 +753,7 @@ pub fn c19_wire_case(kind: std::io::ErrorKind, json: bool, place: u8) -> Outcome
                     tokio::task::spawn_local(f);
                 }));
                 let client = tarpc::client::new::<String, String, _>(tarpc::client::Config::default(), ct).spawn();
-                tokio::time::timeout(std::time::Duration::from_secs(20), client.call(context::current(), "req".to_string())).await
+                tokio::time::timeout(std::time::Duration::from_secs(120), client.call(context::current(), "req".to_string())).await
             }};
         }
         if json {
@@ -764,7 +764,7 @@ pub fn c19_wire_case(kind: std::io::ErrorKind, json: bool, place: u8) -> Outcome
     });
     let want = crate::codec::expected_kind(kind, true);
     match res {
-        Err(_) => out.inconclusive = Some("over-the-wire hook case: no answer within 20 s of real time".into()),
+        Err(_) => out.inconclusive = Some("over-the-wire hook case: no answer within 120 s of real time".into()),
         Ok(Err(RpcError::Server(e))) => {
             if e.kind != want || e.detail != "hook says no" {
                 out.viol("C19", "wire-hook-error", format!("a hook (placement {place}) produced ServerError({kind:?}, \"hook says no\"); the client received ServerError({:?}, {:?}) (expected kind {want:?})", e.kind, e.detail));
